@@ -869,7 +869,12 @@ class BlobStorage(BlobStorageMixin):
             for oid in self.fshelper.getOIDsForSerial(serial_id):
                 # we want to find the serial id of the previous revision
                 # of this blob object.
-                load_result = self.loadBefore(oid, serial_id)
+                try:
+                    load_result = self.loadBefore(oid, serial_id)
+                except POSKeyError:
+                    # The state before serial_id is "creation undone"
+                    # (serial_id re-created the blob by undoing that).
+                    load_result = None
 
                 if load_result is None:
 
